@@ -7,7 +7,7 @@ package evidence
 
 // VerifyDuplicateVote accepts only real double-signing by a member of the given set, with the stated power.
 //@ func VerifyDuplicateVote(e *types.DuplicateVoteEvidence, chainID string, valSet *types.ValidatorSet) (err error)
-//@   for C19
+//@   for C19 C11
 //@   requires e != nil && e.VoteA != nil && e.VoteB != nil && types.wfVals(valSet)
 //@   modifies valSet.totalVotingPower
 //@   ensures [memberOfSet] err == nil ==> types.indexOf(valSet.Validators, e.VoteA.ValidatorAddress, len(valSet.Validators)) >= 0
@@ -106,3 +106,13 @@ package evidence
 //@   modifies *
 //@   opt assumecallreqs
 //@   atcall StoreUint32 requires [counterRestoredFromTheStoredList] val == toUint32(len(result(Pool.listEvidence, 0)))
+
+// Pending evidence expires only when it is too old BOTH in blocks and in time, the age in blocks being
+// the pool's height minus the evidence height (never the other way round: unsigned).
+//@ func (evpool *Pool) isExpired(height uint64, time time.Time) (r bool)
+//@   for C19
+//@   requires evpool != nil
+//@   modifies *
+//@   opt assumecallreqs
+//@   ensures [expiredOnlyWhenOldInBlocks] r && height <= result(Pool.State).LastBlockHeight ==> result(Pool.State).LastBlockHeight - height > params.MaxAgeNumBlocks
+//@   ensures [youngInBlocksNeverExpires] height <= result(Pool.State).LastBlockHeight && result(Pool.State).LastBlockHeight - height <= params.MaxAgeNumBlocks && 0 <= params.MaxAgeNumBlocks ==> !r
